@@ -239,9 +239,20 @@ class Program:
                 call = lambda: getattr(df, op)(arg, **kwc)
             elif op in ("slice", "slice_off"):
                 idx = [rng.randrange(nrow) for _ in range(rng.randint(0, nrow + 1))] if nrow else []
+                if nrow and rng.random() < 0.35:
+                    # positions given in other forms: a range (contiguous run), an integer array, an integer Vector
+                    a_ = rng.randrange(nrow); b_ = rng.randint(a_, nrow)
+                    idx = rng.choice([lambda: range(a_, b_), lambda: np.arange(a_, b_), lambda: di.Vector(list(range(a_, b_)), int), lambda: tuple(range(a_, b_))])()
+                    if isinstance(idx, np.ndarray): operands.append(idx)
+                    self.mon.count("slice-rows-other-forms")
                 cols = None
                 if names and rng.random() < 0.3:
                     cols = sorted(rng.sample(range(len(names)), rng.randint(1, len(names))))
+                    if rng.random() < 0.4:
+                        # column positions as an integer Vector (kept and reused by the caller), counting from the end
+                        cols = di.Vector([c - len(names) if rng.random() < 0.6 else c for c in cols], int)
+                        operands.append(cols)
+                        self.mon.count("slice-cols-as-vector")
                 call = lambda: getattr(df, op)(rows=idx, cols=cols) if cols is not None else getattr(df, op)(rows=idx)
             elif op in ("head", "tail", "sample"):
                 n = rng.choice([0, 1, 2, nrow, nrow + 2, None])
@@ -285,7 +296,18 @@ class Program:
             elif op == "rbind":
                 other = rng.choice(self.pool)
                 operands.append(other)
-                call = lambda: df.rbind(other)
+                others = [other]
+                if rng.random() < 0.4:
+                    # a further operand bringing several columns not seen before
+                    extra = gen.build_frame(self.new_spec(nrow=rng.choice([0, 1, 2]), ncol=rng.choice([2, 3, 4])))
+                    others.append(extra)
+                    operands.append(extra)
+                call = lambda: df.rbind(*others)
+                union = list(names)
+                for o in others:
+                    for n_ in dict.keys(o):
+                        if n_ not in union: union.append(n_)
+                post = ("union-order", union, None)
             elif op in ("cbind", "update"):
                 onrow = nrow if rng.random() < 0.7 else 1
                 other = gen.build_frame(self.new_spec(nrow=onrow, ncol=rng.randint(1, 3)))
@@ -711,6 +733,10 @@ class Program:
                 order_before = [n for n in names if n != name]
                 if list(dict.keys(df)) != order_before:
                     self.mon.violate("C01", f"{op}:order-changed", f"{desc}: {list(dict.keys(df))} expected {order_before}")
+            elif kind == "union-order":
+                if isinstance(out, di.DataFrame) and list(dict.keys(out)) != name:
+                    self.mon.violate("C01", "rbind:column-order-not-first-seen", f"{desc}: columns {list(dict.keys(out))}, first-seen order over the operands is {name}")
+                self.mon.count("union-order-checks")
             elif kind == "group-frames-coherent":
                 okc = canon.col_cells(dict.__getitem__(out, "ok")) if isinstance(out, di.DataFrame) and "ok" in dict.keys(out) else []
                 if any(c != ("N", 1) for c in okc):
